@@ -93,6 +93,15 @@ Scale ==
     /\ Check("C06:transfer_function_scales_with_d_over_c", Near(e.h[1], sg * r.h[1], 4) /\ Near(e.h[2], sg * r.h[2], 4))
     /\ Check("C06:transfer_magnitude_scales_with_ratio", Near(e.hn * Abs(e.cn) * e.dd, r.hn * Abs(e.dn) * e.cd, 4 * (Abs(e.cn) * e.dd + Abs(e.dn) * e.cd)))
 
+(* both channels times 2^e (e very negative or positive): every normalised quantity is unchanged *)
+Tiny ==
+    LET e == Ev  r == Ref(e.j) IN
+    /\ Check("C06:coherence_unchanged_by_scaling", Near(e.coh, r.coh, 4))
+    /\ Check("C06:cross_density_scales_with_c_times_d", Near(e.g[1], r.g[1], 4) /\ Near(e.g[2], r.g[2], 4))
+    /\ Check("C06:transfer_function_scales_with_d_over_c", Near(e.h[1], r.h[1], 4) /\ Near(e.h[2], r.h[2], 4) /\ Near(e.hn, r.hn, 4))
+    /\ Check("C06:density_scales_with_c_squared", Near(e.gxx, r.gxx, 2) /\ Near(e.gyy, r.gyy, 2))
+    /\ Check("C07:gain_independent_of_signal_amplitude", Near(e.h[1], r.h[1], 4) /\ Near(e.h[2], r.h[2], 4) /\ Near(e.coh, r.coh, 4))
+
 (* sampling rate a*fs: frequencies and ENBW times a, densities over a *)
 Relabel ==
     LET e == Ev  r == Ref(e.j) IN
@@ -109,6 +118,12 @@ Enbw ==
 WinSum ==
     LET e == Ev IN
     /\ Check("C05:stored_window_sums_are_those_of_the_configured_window", Near(e.s12, e.xs12, 2) /\ Near(e.s2, e.xs2, 2))
+    /\ Check("C06:enbw_is_fs_S2_over_S12", Near(e.enbwq, e.enbwx, 4))
+
+(* contract clause: a sinusoid of amplitude A at its own frequency gives ps = A^2/2 up to the leakage of its image line *)
+Sine ==
+    LET e == Ev IN
+    /\ Check("C06:sinusoid_power_is_half_amplitude_squared", Near(e.psq, Q, e.bound))
     /\ Check("C06:enbw_is_fs_S2_over_S12", Near(e.enbwq, e.enbwx, 4))
 
 Gain ==
@@ -134,8 +149,10 @@ Step ==
          [] Ev.t = "alone" -> Alone
          [] Ev.t = "scale" -> Scale
          [] Ev.t = "relabel" -> Relabel
+         [] Ev.t = "tiny" -> Tiny
          [] Ev.t = "enbw" -> Enbw
          [] Ev.t = "winsum" -> WinSum
+         [] Ev.t = "sine" -> Sine
          [] Ev.t = "gain" -> Gain
          [] Ev.t = "delay" -> Delay
     /\ l' = l + 1 /\ UNCHANGED tid
